@@ -1375,6 +1375,15 @@ class NetWorld(World):
         elif how == "net_stats":
             _, exc = self.call(lambda: (net.totalLength(), net.getNumberOfVertices(), str(net)[:10],
                                         [net.degree(i) for i in net.getNodesId()][:3]))
+            for acc in ("getIncidentEdges", "getAdjacentNodes", "getNextNodes", "getPrevNodes", "getNextEdges",
+                        "getPrevEdges"):
+                # read-only accessors, every junction (the lists they hand out are only looked at: the
+                # network hands out its own successor lists)
+                def look(acc=acc):
+                    for i in net.getNodesId():
+                        len(getattr(net, acc)(i))
+                self.call(look)
+            self.probe("adjacency_accessors_called_on_every_junction")
             if isinstance(exc, Exception):
                 exc = None              # (what these summaries accept is not this world's subject)
         elif how == "reverse_abs":
@@ -1812,6 +1821,21 @@ class NetWorld(World):
         from tracklib.algo.mapping import mapOnNetwork
         net, m = self._sess(st)
         s = st.get("s", 0)
+        if obs and m["edges"] and (m["index"] is None or m["prepared"] is None) and where == "map" \
+                and len(obs) % 3 == 0 and m.get("broken") is None:
+            # the user forgot to index or to prepare the network: the matching is refused (or does what it
+            # can); nothing it needed for itself may stay behind on the network
+            tr0 = Track([Obs(ENUCoords(x, y, 0.0), ObsTime(2020, 1, 1, 0, 0, k % 60)) for k, (x, y) in enumerate(obs)])
+            had_table = m["prepared"] is not None
+            _, exc0 = self.call(mapOnNetwork, tr0, net, st["noise"], st["tcost"], st["radius"], False)
+            if exc0 is not None and not isinstance(exc0, Exception):
+                return self._unexpected("C10", exc0, "mapOnNetwork on a network that is not ready")
+            self.stats["fault_fired:rejected_request"] += 1
+            self.probe("matching_requested_on_a_network_that_is_not_ready")
+            if not had_table and net.DISTANCES:
+                self.fail("C06", "table.pairs", "mapOnNetwork on a network that was never prepared left %d entries in its "
+                          "table of prepared distances" % len(net.DISTANCES), "no table", len(net.DISTANCES))
+            return "rejected"
         if m["index"] is None or m["prepared"] is None or not m["all_abs"] or not obs:
             raise Skip()
         key = (s, st.get("slot", 0))
